@@ -340,6 +340,29 @@ pub fn pair_alphabet_trees() -> Vec<Value> {
     }
     out
 }
+/// The holder's public key (the one the configurations bind) as an ordinary user claim under names that look
+/// like a confirmation: the issuer must still add cnf, and must treat these like any other claim.
+pub fn confirmation_like_trees() -> Vec<Value> {
+    let j = crate::keys::Hk::Es.jwk_value(0).unwrap();
+    let mut out = vec![];
+    for name in ["sub_jwk", "jwk", "holder_key", "cnf2", "confirmation"] {
+        out.push(json!({"iss": gen::ISS, "exp": gen::EXP, name: j.clone(), "a": 1}));
+        out.push(json!({"iss": gen::ISS, "exp": gen::EXP, name: {"jwk": j.clone()}, "a": {"b": 1}}));
+        out.push(json!({"iss": gen::ISS, "exp": gen::EXP, "a": {name: j.clone()}}));
+    }
+    out
+}
+
+/// Issuer identifiers of many shapes (the issuer must sign, and the verifier return, the iss string as given).
+pub fn iss_variant_trees() -> Vec<Value> {
+    let mut out = vec![];
+    for iss in ["https://Issuer.Example.COM/Tenant-A", "HTTPS://I.EXAMPLE", "https://i.example/", "https://i.example:443/a/../b", "did:Web:Issuer.Example", "urn:UUID:F81D4FAE-7DEC-11D0-A765-00A0C91E6BF6", " https://i.example ", "", "\u{e9}metteur", "https://i.example/caf%C3%A9", "https://i.example/caf\u{e9}", "i", "1", "null", "https://\u{1F600}.example", "https://i.example?x=1#f"] {
+        out.push(json!({"iss": iss, "exp": gen::EXP, "a": 1, "b": {"c": [2, 3]}}));
+        out.push(json!({"a": {"iss": iss}, "exp": gen::EXP, "iss": iss}));
+    }
+    out
+}
+
 /// Pairs of *related* values side by side: the same number written as integer / float / string, the JSON
 /// literals and their spellings as strings, empty containers and their spellings, equal values (x next to x).
 pub fn value_pair_trees() -> Vec<Value> {
